@@ -306,9 +306,13 @@ def main(argv):
               violations=len([1 for v in viols if not match_known(pid, v, known)]) if n_viol_total <= len(viols) else n_viol_total)
     os.makedirs(os.path.join(VERIF, 'evidence'), exist_ok=True)
     evpath = os.path.join(VERIF, 'evidence', pid + '.json')
+    if os.environ.get('VERIF_NO_EVIDENCE'):      # mutation runs on a scratch copy must not overwrite evidence
+        evpath = os.path.join('/tmp', 'mofun-verif-evidence-%s-%d.json' % (pid, os.getpid()))
     with open(evpath, 'w') as f:
         json.dump(ev, f, indent=1, sort_keys=True)
     validate_evidence(evpath)
+    if os.environ.get('VERIF_NO_EVIDENCE'):
+        os.remove(evpath)
 
     print('%s %s seed=%d: scenarios=%d states=%d transitions=%d compared=%d distinct_outcomes=%d nontrivial=%d wall=%.1fs%s' % (
         pid, tier, seed, len(scenarios), states, transitions, cov['traces_validated_against_impl'], len(outcomes),
